@@ -120,6 +120,8 @@ static void bk_init_backend()
   g_bw.b._active_thread_contexts_cache.reserve(4);
   g_bw.b._active_sinks_cache.reserve(4);
 }
+// light variant: only the options member is constructed (for kernels that use nothing else of the worker)
+static void bk_init_backend_light() { new (&g_bw.b._options) BackendOptions(); }
 static void bk_init_sink(uint32_t i) { RecSink* s = new (sink_at(i)) RecSink(); s->id = static_cast<uint8_t>(i); }
 
 // logger i writing to sinks [0, nsinks)
